@@ -20,6 +20,11 @@ def m_docs():
 def frame_stage(run, n=None):
     """returns (violations for run.pid, coverage dict)"""
     vh = run.build_vh(); swagger = run.build_swagger()
+    # the design of the frame: every reachable workspace of the small model satisfies the frame's invariants
+    # (cached per content of the module and its config)
+    mc = run.tlc("GoSwagger", "MCGoSwagger", workers=8, timeout=1800, cache=True)
+    if not mc["ok"]:
+        raise Infra("MCGoSwagger: the frame's design check failed: " + mc["out"][-2000:])
     n = n or (24 if run.tier == "quick" else 160)
     depth = 5 if run.tier == "quick" else 6
     g = run.tlc("GoSwagger", "GenGoSwagger", workers=1, timeout=900, simulate="num=%d" % n, depth=depth + 2,
@@ -65,6 +70,6 @@ def frame_stage(run, n=None):
     for e in trace:
         k = e["ev"] + ("/" + (e.get("cmd") or e.get("kind") or "") if e["ev"] in ("Transform", "Generate") else "")
         kinds[k] = kinds.get(k, 0) + 1
-    cov = dict(frame_histories=len(cases), frame_events=len(trace), frame_commands=kinds, frame_mismatches_of_other_rules=notes,
+    cov = dict(frame_design_states=mc["states"], frame_histories=len(cases), frame_events=len(trace), frame_commands=kinds, frame_mismatches_of_other_rules=notes,
                frame_failed_commands=sum(1 for e in trace if e.get("exit", 0) != 0 and e["ev"] != "Diff"))
     return mine, cov
